@@ -108,7 +108,13 @@ fn sink(ev: &Event) {
         }
         Event::PtrUse { ptr, site } => {
             if tid != MAIN {
-                point_in(&sh, tid, Point::Use { ptr, site });
+                // A whole-slice read ("slice:..." sites) is checked by the
+                // monitors below but is not a schedule point of its own: while
+                // the lock is held nothing can interleave with it, and if the
+                // lock is NOT held the lockset monitor reports it right here.
+                if !site.starts_with("slice:") {
+                    point_in(&sh, tid, Point::Use { ptr, site });
+                }
                 // we have been granted: check the pointer now, just before the use
                 let mut st = sh.st.lock().unwrap();
                 let rec = st.made[tid].iter().rev().find(|r| r.0 == ptr).cloned();
